@@ -199,6 +199,8 @@ def same_op(a, b):
 # ---- the rule ------------------------------------------------------------------------------
 
 _cache = {}
+from tc.util import register_cache as _reg
+_reg(_cache)
 
 
 def extract_table(F, R):
